@@ -1,6 +1,42 @@
 // C20 - geoid heights independent of cache history (DESIGN 3/C20); flavour "san" (ASan + UBSan).
 //
-// MUTATION TABLE (scratch copy of /repo, VERIF_REPO=/tmp/mutC19, quick tier) - see the end of this file.
+// Sub-checks, oracle, tolerances
+//   C20.a  values vs R-GEOID (ref/geoid_ref.hpp: bilinear; cubic = weighted least-squares fit of the documented 12-point
+//          stencil solved per query in long double, pole rows with the longitude-independent constraint) and the
+//          structural relations (nodes, affine edges, continuity, periodicity, polynomial reproduction, pole value)
+//          tol: KR eps (scale vmax G + |offset|) + 4 eps |grad| * (|x|,|y| in cells)   (tol_height)
+//   C20.b  histories: every query == R-GEOID and bit-for-bit == fresh object, CacheAll object, thread-safe object
+//   C20.c  histories dominated by ConvertHeight (h + d N, round trip, NaN)
+//   C20.d  histories dominated by cache operations and inspectors; thread-safe CacheArea/CacheAll throw
+//   C20.e  single-field corruptions of a valid file are rejected with GeographicErr
+//
+// MUTATION TABLE.  Scratch copy of /repo HEAD under /tmp/mutC19, one edit each, run with
+// `VERIF_REPO=/tmp/mutC19/m python3 check.py C20 --tier quick`; "caught by" = sub-checks with confirmed violations.
+//   cell cache key ignores iy / ignores ix                             caught by a b c d
+//   cubic: _t[] not refreshed (stale coefficients)                     caught by a b c d
+//   bilinear: _v01 not refreshed                                       caught by a b c d
+//   CacheArea: second (wrapped) read starts at column 1                caught by b c d
+//   CacheArea: ie/iw wrap adjustment in the wrong order                caught by b c d   (bad_alloc / wrong values)
+//   rawval: wrapped cache index off by one                             caught by b c d   (history dependence)
+//   rawval: pole reflection ix +- w/2 replaced                         caught by a b c d
+//   CacheArea: pole rows not shifted by w/2 / reflected row off by one caught by b c d;  b c d
+//   c3_ entry (-88 -> -87), c3_ cubic-term entry (-60 -> -61)          caught by a b c d
+//   c3n_ entry, c3s_ entry                                             caught by a b c d
+//   c0_ 240 -> 241, c0n_ 372 -> 373                                    caught by a b c d
+//   table selection iy == height-2 -> height-1                         caught by a b c d
+//   rawval byte order                                                  caught by a b c d
+//   cache byte order (readarray bigendian flag)                        caught by b c d
+//   bilinear weights swapped                                           caught by a b c d
+//   stencil gather (ix+2, iy+1) -> (ix+1, iy+1)                        caught by a b c d
+//   CacheClear leaves _cache set                                       caught by b c d   (Cache() inspector)
+//   thread-safe CacheArea returns instead of throwing                  caught by b c d
+//   ConvertHeight sign                                                 caught by b c d
+//   constructor accepts negative scale / odd width / longer file       caught by e
+//   CacheWest inspector                                                caught by b c d
+//   height(): NaN test removed                                         caught by a   (UBSan float-cast trap)
+//   height(): ix >= _width -> ix > _width                              NOT caught: dead code (|lon| <= 180 gives |ix| <= w/2)
+//   seeded/fix-reverts F41 (north-pole row clamp)                      caught by a b c
+// 29 of 30 edits and the fix-revert caught; the survivor is an equivalent mutant.
 #include "fw/harness.hpp"
 #include "gen/c20_raster.hpp"
 #include "ref/geoid_ref.hpp"
@@ -194,7 +230,7 @@ Verdict check_a(const J& rec) {
     double hn = height(lat, lon);
     L pix = r.at(ix, iy);
     if (exact_grid) v.that(same_bits(hn, r.offset + r.scale * (double)pix), "bilinear height at a grid node differs from offset + scale * pixel");
-    Cmp m; if (compare(r, cubic, lat, lon, hn, m)) v.le(fabsl((L)hn - ((L)r.offset + (L)r.scale * pix)), 8 * m.tol, "bilinear height at a grid node vs offset + scale * pixel [m]");   // the node coordinates are rounded too
+    Cmp m; if (compare(r, cubic, lat, lon, hn, m)) v.le(fabsl((L)hn - ((L)r.offset + (L)r.scale * pix)), 24 * m.tol, "bilinear height at a grid node vs offset + scale * pixel [m]");   // the node coordinates are rounded too
     // (4) affine along cell edges (exact grids: the three points lie exactly on the edge)
     if (exact_grid) {
       double la = lat, lo0 = ix * dlon, lo1 = lo0 + dlon * 0.25, lo2 = lo0 + dlon * 0.75;   // row edge; 0.25/0.75 of a dyadic spacing are exact
